@@ -97,6 +97,11 @@ type KFEntry struct {
 	Status   string `json:"status"` // "known" | "fixed"
 	Commit   string `json:"commit,omitempty"`
 	What     string `json:"what"`
+	// ScheduleDependent marks a finding whose pinned reproduction is a bounded stress loop
+	// that may not fire on every run: its generator class stays excluded while it is listed
+	// as known, whether or not the probe fired this time (the KNOWN-FINDING line is printed
+	// only when it did).
+	ScheduleDependent bool `json:"schedule_dependent,omitempty"`
 }
 
 // Root is /verif (or $VERIF_ROOT).
@@ -273,6 +278,11 @@ func Main(m *testing.M, c Config) {
 
 	if IsChild() {
 		os.Exit(m.Run())
+	}
+	for id, e := range known {
+		if e.Status == "known" && e.ScheduleDependent && e.Property == cfg.Property {
+			excluded[id] = true
+		}
 	}
 	for _, p := range c.Probes {
 		runProbe(p)
